@@ -363,6 +363,95 @@ fn gen_random(r: &mut Rng, len: usize) -> Vec<Op> {
     ops
 }
 
+/// SUB bound on TCP; raw publishers connect from other tasks of a multi-thread runtime
+/// while subscribe() runs in a loop: every publisher must end up knowing the whole set,
+/// wherever its join landed relative to the calls (true parallelism, no schedule control).
+async fn rig_concurrent_joins(npeers: usize, ntopics: usize, seed: u64) -> Result<(u64, u64), String> {
+    use crate::rig::{self, Raw, WAIT};
+    use std::sync::atomic::{AtomicBool, AtomicU64, Ordering};
+    use std::time::Duration;
+    let loop_done = std::sync::Arc::new(AtomicBool::new(false));
+    let during = std::sync::Arc::new(AtomicU64::new(0));
+    let mut sock = Sock::new("SUB", None);
+    let ep = sock.bind("tcp://127.0.0.1:0").await?;
+    let mut tasks = Vec::new();
+    for k in 0..npeers {
+        let ep = ep.clone();
+        let delay = (crate::prng::mix(seed ^ k as u64) % 40) as u64;
+        let (loop_done, during) = (loop_done.clone(), during.clone());
+        tasks.push(tokio::spawn(async move {
+            tokio::time::sleep(Duration::from_micros(delay * 250)).await;
+            let mut raw = Raw::connect(&ep).await.map_err(|e| e.to_string())?;
+            raw.handshake("PUB", Some(format!("rigpub{k}").as_bytes())).await?;
+            if !loop_done.load(Ordering::SeqCst) {
+                during.fetch_add(1, Ordering::SeqCst);
+            }
+            // read subscription traffic until it has been quiet for a while
+            let mut set: Vec<Vec<u8>> = Vec::new();
+            loop {
+                match raw.read_msg(Duration::from_millis(400)).await {
+                    Ok(m) => {
+                        if m.len() == 1 && !m[0].is_empty() {
+                            match m[0][0] {
+                                1 => set.push(m[0][1..].to_vec()),
+                                0 => {
+                                    if let Some(i) = set.iter().position(|t| t[..] == m[0][1..]) {
+                                        set.remove(i);
+                                    }
+                                }
+                                _ => {}
+                            }
+                        }
+                    }
+                    Err(rig::ReadEnd::Timeout) => break,
+                    Err(e) => return Err(format!("publisher {k}: {e:?}")),
+                }
+            }
+            let mut uniq: std::collections::BTreeSet<Vec<u8>> = set.into_iter().collect();
+            let _ = &mut uniq;
+            Ok::<std::collections::BTreeSet<Vec<u8>>, String>(uniq)
+        }));
+    }
+    let mut want = std::collections::BTreeSet::new();
+    for t in 0..ntopics {
+        let topic = format!("topic-{t:04}");
+        tokio::time::timeout(WAIT, sock.subscribe(&topic)).await.map_err(|_| "subscribe timed out".to_string())??;
+        want.insert(topic.into_bytes());
+        if t % 3 == 0 {
+            tokio::task::yield_now().await;
+        }
+        if t % 8 == 0 {
+            tokio::time::sleep(Duration::from_micros(200)).await;
+        }
+        if t % 10 == 5 {
+            let gone = format!("topic-{:04}", t - 3);
+            tokio::time::timeout(WAIT, sock.unsubscribe(&gone)).await.map_err(|_| "unsubscribe timed out".to_string())??;
+            want.remove(gone.as_bytes());
+        }
+    }
+    loop_done.store(true, Ordering::SeqCst);
+    let mut checked = 0u64;
+    for (k, t) in tasks.into_iter().enumerate() {
+        let view = match tokio::time::timeout(Duration::from_secs(20), t).await {
+            Ok(Ok(Ok(v))) => v,
+            Ok(Ok(Err(e))) => return Err(e),
+            _ => return Err(format!("publisher task {k} did not finish")),
+        };
+        if view != want {
+            let missing: Vec<String> = want.difference(&view).take(4).map(|t| String::from_utf8_lossy(t).into_owned()).collect();
+            let extra: Vec<String> = view.difference(&want).take(4).map(|t| String::from_utf8_lossy(t).into_owned()).collect();
+            return Err(format!(
+                "publisher {k} joined while subscribe() was running and ended up with {} topics instead of {}: missing {missing:?}, stale {extra:?}",
+                view.len(),
+                want.len()
+            ));
+        }
+        checked += 1;
+    }
+    let _ = tokio::time::timeout(WAIT, sock.close()).await;
+    Ok((checked, during.load(Ordering::SeqCst)))
+}
+
 impl Prop for C13 {
     fn id(&self) -> &'static str {
         "C13"
@@ -386,6 +475,9 @@ impl Prop for C13 {
                 v.push(json!({"kind": "targeted", "prefix": pi, "early": early_peer}));
                 let _ = pre;
             }
+        }
+        for k in 0..tier.pick(6, 40) {
+            v.push(json!({"kind": "rig_joins", "peers": 8, "topics": 120, "seed": mix(seed ^ 0x13A ^ k as u64)}));
         }
         for k in 0..tier.pick(4000, 40_000) {
             v.push(json!({"kind": "random", "seed": mix(seed ^ 0xC13 ^ k as u64), "len": 12}));
@@ -427,6 +519,24 @@ impl Prop for C13 {
                     }
                 }
             }
+            "rig_joins" => {
+                ctx.eval(hash_str(&case.to_string()), true);
+                ctx.sample("rig_joins", || case.clone());
+                let (res, _) = crate::rig::run(4, rig_concurrent_joins(u(case, "peers") as usize, u(case, "topics") as usize, u(case, "seed")));
+                match res {
+                    Ok((n, during)) => {
+                        ctx.add("rig_publishers_checked", n);
+                        ctx.add("rig_publishers_joined_during_subscribe_loop", during);
+                    }
+                    Err(e) => {
+                        if e.contains("timed out") || e.contains("did not finish") {
+                            ctx.inconclusive(format!("C13 rig: {e}"));
+                        } else {
+                            ctx.violation_with("C13/rig/peer-joined-concurrently-differs-from-socket", e, case.clone());
+                        }
+                    }
+                }
+            }
             "random" => {
                 let mut r = Rng::keyed(u(case, "seed"), &[13]);
                 let ops = gen_random(&mut r, u(case, "len") as usize);
@@ -457,6 +567,7 @@ impl Prop for C13 {
             ("unsubscribes_of_absent_topic", 200),
             ("failing_peers", 50),
             ("rejoins_under_the_same_identity", 100),
+            ("rig_publishers_joined_during_subscribe_loop", 10),
         ]
     }
 }
